@@ -280,6 +280,13 @@ fn pre_op(op: &Value, dir: &str, cas: &[CaServer], ctl: &str) -> Result<Value, S
 			std::fs::set_permissions(&p, std::fs::Permissions::from_mode(m)).map_err(|e| format!("{e}"))?;
 			Ok(json!({"op": name}))
 		}
+		"symlink" => {
+			let p = path_of("path");
+			let target = path_of("target");
+			let _ = std::fs::remove_file(&p);
+			std::os::unix::fs::symlink(&target, &p).map_err(|e| format!("{e}"))?;
+			Ok(json!({"op": name}))
+		}
 		"mkdir" => {
 			std::fs::create_dir_all(path_of("path")).map_err(|e| format!("{e}"))?;
 			Ok(json!({"op": name}))
